@@ -1,0 +1,76 @@
+//go:build verif
+
+// Verification hooks (build tag verif) for C14, index side: thin constructors/wrappers so that an external harness can
+// drive the retention decision code for indexes (ExpiredIndexes / UpdateIndexDurationInfo / DeleteIndex) and the
+// duration push from a shard into the index builder it holds. No behaviour of its own.
+package engine
+
+import (
+	"time"
+
+	"github.com/openGemini/openGemini/engine/index/tsi"
+	"github.com/openGemini/openGemini/lib/errno"
+	"github.com/openGemini/openGemini/lib/logger"
+	meta2 "github.com/openGemini/openGemini/lib/util/lifted/influx/meta"
+)
+
+type VerifIndexSpec struct {
+	ID, GroupID uint64
+	Policy      string
+	Start, End  time.Time
+	Duration    time.Duration
+	Path        string // directory of the index on disk (removed by DeleteIndex)
+}
+
+// VerifNewRetentionEngineDir returns an EngineImpl with one empty partition (db, pt) whose data path is dir and which
+// has the logger and lock path DeleteIndex needs.
+func VerifNewRetentionEngineDir(db string, pt uint32, dir string) *EngineImpl {
+	e := &EngineImpl{DBPartitions: make(map[string]map[uint32]*DBPTInfo), log: logger.NewLogger(errno.ModuleUnknown)}
+	p := NewDBPTInfo(db, pt, dir, dir, nil, nil, nil)
+	lock := ""
+	p.SetLockPath(&lock)
+	e.DBPartitions[db] = map[uint32]*DBPTInfo{pt: p}
+	return e
+}
+
+// VerifAddIndex installs an index builder (only the fields retention reads) in the partition's index map.
+func (e *EngineImpl) VerifAddIndex(db string, pt uint32, sp VerifIndexSpec) {
+	ident := &meta2.IndexIdentifier{OwnerDb: db, OwnerPt: pt, Policy: sp.Policy}
+	ident.Index = &meta2.IndexDescriptor{IndexID: sp.ID, IndexGroupID: sp.GroupID,
+		TimeRange: meta2.TimeRangeInfo{StartTime: sp.Start, EndTime: sp.End}}
+	opts := new(tsi.Options).Ident(ident).Path(sp.Path).StartTime(sp.Start).EndTime(sp.End).Duration(sp.Duration)
+	e.DBPartitions[db][pt].indexBuilder[sp.ID] = tsi.NewIndexBuilder(opts)
+}
+
+// VerifAddShardWithIndex installs an opened shard that holds the partition's index builder indexID (which must exist).
+func (e *EngineImpl) VerifAddShardWithIndex(db string, pt uint32, sp VerifShardSpec, indexID uint64) bool {
+	ib, ok := e.DBPartitions[db][pt].indexBuilder[indexID]
+	if !ok {
+		return false
+	}
+	sh := &shard{
+		ident:        &meta2.ShardIdentifier{ShardID: sp.ID, ShardGroupID: sp.GroupID, OwnerDb: db, OwnerPt: pt, Policy: sp.Policy, EndTime: sp.End},
+		endTime:      sp.End,
+		durationInfo: &meta2.DurationDescriptor{Duration: sp.Duration},
+		indexBuilder: ib,
+	}
+	e.DBPartitions[db][pt].shards[sp.ID] = sh
+	return true
+}
+
+func (e *EngineImpl) VerifIndexIDs(db string, pt uint32) []uint64 {
+	var r []uint64
+	for id := range e.DBPartitions[db][pt].indexBuilder {
+		r = append(r, id)
+	}
+	return r
+}
+
+// VerifIndexDuration reports the duration an installed index builder currently holds.
+func (e *EngineImpl) VerifIndexDuration(db string, pt uint32, id uint64) (time.Duration, bool) {
+	ib, ok := e.DBPartitions[db][pt].indexBuilder[id]
+	if !ok {
+		return 0, false
+	}
+	return ib.GetDuration(), true
+}
